@@ -353,10 +353,17 @@ def x2_large(ctx):
     rng = ctx.rng
     quick = ctx.tier == 'quick'
     sizes = [6000, 25000, 60000] if quick else [6000, 25000, 60000, 5000, 5001, 8192, 16385, 100000, 40000]
+    # source hints: record lengths around every new integer constant, time steps at / around every new float constant (and its reciprocal) of the anchored files
+    sizes = sizes + gen.hint_sizes(ctx, lo=65, hi=1000000, cap=8)
+    hv_dt = gen.hint_values(ctx, 1e-4, 10.0, cap=12, maps=(lambda c: c, lambda c: 1 / c))
     for n in sizes:
         for kind in (['int', 'noise'] if quick else ['int', 'noise', 'plateau', 'const', 'ramp']) + ([rng.choice(['const', 'ramp', 'plateau'])] if quick else []):
+            if kind == 'ramp' and n > 100000:
+                continue          # (hinted lengths only) a ramp of this length leaves the range in which the double-precision trapezoid sums are exact
             if kind == 'noise':
                 dt = gen.any_dt(rng)
+                if hv_dt:
+                    dt = rng.choice(hv_dt)
                 a = gen.noise_record(rng, n, rng.choice([1.0, 1e-6, 1e6]))
             else:
                 dt = gen.dyadic_dt(rng)
